@@ -402,6 +402,18 @@ def enabled(st, b):
             out.append((Block("s:" + sid, "simple", [stmt_line(depth, mk(), "simple")]), nxt()))
         r = ret(None) if fn.ret == "void" else ret(V("n") if fn.ret == "int" else V("p"))
         out.append((Block("s:return", "simple", [stmt_line(depth, r, "return")]), nxt()))
+        if room >= 2:
+            # statements split over two physical lines (the Norm: following lines indented, operators and
+            # commas placed as the examples of the Norm do: comma at the end, operator at the start)
+            c1 = [ID("func", "ft_putnbr"), P("lp", "("), ID("var", "n"), P("comma", ",")]
+            c2 = [ID("var", "p"), P("rp", ")"), P("semi", ";")]
+            out.append((Block("w:call", "simple", [stmt_line(depth, c1, "wsimple"), Line(IND(depth + 1) + c2, "cont", depth)], nstmts=1),
+                        nxt(nlines=fn.nlines + 2)))
+            if fn.ret == "int":
+                r1 = [KW("return"), SP(), P("lp", "("), ID("var", "n")]
+                r2 = [P("binop", "+"), SP(), ID("var", "len"), P("rp", ")"), P("semi", ";")]
+                out.append((Block("w:return", "simple", [stmt_line(depth, r1, "wreturn"), Line(IND(depth + 1) + r2, "cont", depth)],
+                                  nstmts=1), nxt(nlines=fn.nlines + 2)))
         if inwhile:
             out.append((Block("s:break", "simple", [stmt_line(depth, [KW("break"), SP(), P("semi", ";")], "jump")]), nxt()))
             out.append((Block("s:continue", "simple",
@@ -430,6 +442,15 @@ def enabled(st, b):
                     lines = [stmt_line(depth, head, "ctrl"), stmt_line(depth + 1, SIMPLE[sid](), "simple")]
                     out.append((Block(f"{tag}1:{sid}", "ctrl-single", lines),
                                 nxt(nlines=fn.nlines + 2, can_else=hid in ("if", "elif"))))
+    for hid, kw in (("if", "if"), ("while", "while")):
+        h1 = [KW(kw), SP(), P("lp", "(")] + binop(V("n"), ">", C("0"))
+        h2 = [P("binop", "&&"), SP()] + index(V("p"), V("n")) + [P("rp", ")")]
+        if len(fn.stack) < b.max_nest and room >= 5:
+            lines = [stmt_line(depth, h1, "wctrl"), Line(IND(depth + 1) + h2, "cont", depth), stmt_line(depth, [P("lbrace", "{")], "lbrace")]
+            out.append((Block(f"{hid}:w{{", "ctrl-open", lines, nstmts=2), nxt(nlines=fn.nlines + 3, stack=fn.stack + ((hid,),))))
+        if room >= 3:
+            lines = [stmt_line(depth, h1, "wctrl"), Line(IND(depth + 1) + h2, "cont", depth), stmt_line(depth + 1, SIMPLE["call"](), "simple")]
+            out.append((Block(f"{hid}:w1:call", "ctrl-single", lines, nstmts=2), nxt(nlines=fn.nlines + 3, can_else=hid == "if")))
     if fn.stack:
         if fn.nst > 0 or True:
             kind = fn.stack[-1][0]
